@@ -57,6 +57,14 @@ pub fn gen(tier: &str, seed: u64, emit: &mut dyn FnMut(String)) {
         match rng.below(5) { 0 => { let n = rng.range(1, 3) as usize; let t = rng.bytes(n); b.extend(t); } 1 => { let k = rng.below(b.len() as u64 + 1) as usize; b.truncate(k); } _ => {} }
         emit(format!("DSC {}", hex(&b)));
     }
+    // very long loops: total length around and beyond 1 KiB, 4 KiB (the 10- and 12-bit length fields of the tables that carry
+    // loops) and 64 KiB — DescriptorIter::new takes any slice, and nothing in the statement bounds it
+    for target in [1000usize, 1023, 1024, 1025, 4094, 4095, 4096, 4097, 5120, 8192, 65535, 65536, 66000] { for _ in 0..(if big { 6 } else { 2 }) {
+        let mut b = vec![];
+        while b.len() < target { let n = *rng.pick(&[254usize, 255, 200, 17, 3, 0]); let p = rng.bytes(n); let t = *rng.pick(&[5u8, 10, 14, 40, 0x80, 0xff]); b.extend(descriptor(t, &p)); }
+        match rng.below(3) { 0 => { b.truncate(target); } 1 => { let t = rng.bytes(1); b.extend(t); } _ => {} }
+        emit(format!("DSC {}", hex(&b)));
+    } }
     // Descriptor::from_bytes called directly on a slice that continues behind its first (complete) descriptor
     for _ in 0..(if big { 40000 } else { 3000 }) {
         let mut b = crate::suites::c16::rand_desc(&mut rng);
